@@ -98,7 +98,7 @@ def conveyor_subjects(tier):
             out.append(S(kind, 3, live=1, drain=1, eager_get=1, age_cap=5, grid=1, acc=acc, **kw))
             if not q:
                 out.append(S(kind, 3, live=2, drain=1, eager_get=1, age_cap=6, grid=0.5, acc=acc, **kw))
-                out.append(S(kind, 2, live=2, drain=1, age_cap=4, grid=1, acc=acc, **kw))
+                out.append(S(kind, 2, live=2, drain=1, age_cap=4, grid=1, acc=acc, order_only=1, **kw))   # delayed use / cancellation: order only
     if not q:
         # lengths that are not a multiple of the item length (capacity as the library computes it: int(ceil(length)/item_length))
         out.append(S("cconv", 4, live=1, drain=1, eager_get=1, age_cap=4, grid=0.35, acc=1, ilen=0.7, speed=1, clen=2.1))
@@ -171,6 +171,8 @@ def jobs_for(prop, tier):
     elif prop in ("C12", "C13"):
         ccaps = {"max_states": 16000 if q else 250000, "max_seconds": 400 if q else 1200}   # state cap: deterministic coverage
         for sp in conveyor_subjects(tier):
+            if sp.get("order_only") and prop == "C13":
+                continue   # the kinematic reference is only defined for an eager consumer (DESIGN §5 C13, §12.4)
             jobs.append({"engine": "S", "prop": prop, "label": sp.label() + "#" + _h(sp), "spec": sp.to_json(), "caps": ccaps})
         if prop == "C12":
             for sp in conveyor_store_subjects(tier):
